@@ -193,6 +193,12 @@ impl RK23 {
                 break;
             }
 
+            // Check for underflow due to machine rounding (no progress is possible any more)
+            if 0.1 * h.abs() <= x.abs() * Float::EPSILON {
+                status = Status::StepSizeTooSmall;
+                break;
+            }
+
             // Check for last step adjustment
             if (x + h - xend) * posneg > 0.0 {
                 h = xend - x;
@@ -300,9 +306,11 @@ impl RK23 {
             } else {
                 // Step rejected
                 steps.rejected += 1;
-                h *= (safety_factor * err.powf(error_exponent))
-                    .min(1.0)
-                    .max(scale_min);
+                let factor = safety_factor * err.powf(error_exponent);
+                // A non-finite error norm must still shrink the step
+                // (`NaN.min(1.0).max(scale_min)` would leave it unchanged forever).
+                h *= if factor.is_nan() { scale_min } else { factor.min(1.0).max(scale_min) };
+
             }
         }
 
